@@ -428,10 +428,19 @@ class Sched:
         self.written += lines
         return {"lines": lines}
 
+    def normalize(self, p):
+        """a worker whose target raised by itself (bad data, sys.exit(n) ...) is a failing worker, exactly like one in which
+        a crash was injected: it flushes what it has put, then exits with a non-zero code - also after its sentinel"""
+        if p.pending is not None and p.pending[0] == "raised" and p.state in ("run", "done"):
+            p.state = "failing"
+            self.faults += 1
+            self.trace.append({"t": "natural_failure", "w": p.w, "exc": str(p.pending[1])[:80]})
+
     def applicable(self, t, w):
         if w is None or w < 1 or w > len(self.procs):
             return False
         p = self.procs[w - 1]
+        self.normalize(p)
         if t in ("WPut", "WSentinel"):
             return p.state in ("run", "failing") and p.pending is not None and p.pending[0] == "put" and (t == "WSentinel") == (p.pending[1] is None)
         if t == "WFlush":
